@@ -18,6 +18,7 @@ EXPLANATION = ('Bounded: the partition laws as set identities and every HTML sta
 LEVEL_TEXT = EXPLANATION
 TECHNIQUE = 'contract-based deductive verification (VCs from the real AST, z3/cvc5) for :default, :indeterminate, ranges and placeholder (memo tables under an object invariant) and :dir() (recursion over ancestors and over the consulted subtree, with measures); bounded evaluation for the partition laws'
 MUSTFAIL_PER_FN = {'quick': 1, 'thorough': 4}
+TIMEOUT_MS = {'quick': 30000, 'thorough': 120000}
 
 FUNCTIONS = FUNCTIONS + ['soupsieve.css_match.CSSMatch.match_range', 'soupsieve.css_match._DocumentNav.get_attribute_by_name']
 SHARDS = {'match_range': 8, 'parse_value': 8, 'match_selectors': 16, 'match_nth': 4}
